@@ -249,6 +249,16 @@ class HostileSuite(Suite):
                 cases.append({"entry": entry, "kind": kind})
         for c in cases:
             c["doc"] = hostile(c["entry"], c["kind"], c.get("n", 1), c.get("fan", 10))
+        # placement variants: the entity-declaring DTD far into the prolog (behind a long comment), and documents
+        # with padding in front of the XML declaration (malformed, but must never be "recovered" by a laxer parser)
+        for entry in ENTRY_MODULE:
+            base = hostile(entry, "internal-nested", 3, 10)
+            for pad in (4000, 4096, 5000, 70000):
+                doc = base.replace('<?xml version="1.0"?>\n', '<?xml version="1.0"?>\n<!--' + "x" * pad + "-->", 1)
+                cases.append({"entry": entry, "kind": "late-doctype", "n": pad, "doc": doc})
+            for lead in ("\n", "   ", "\x00\x00", "\ufeff\n", "\n\n\t"):
+                cases.append({"entry": entry, "kind": "malformed-leading-pad", "doc": lead + base})
+                cases.append({"entry": entry, "kind": "malformed-leading-pad-ext", "doc": lead + hostile(entry, "ext-general-file")})
         # benign documents of the C18 generators must parse as before
         from harness.props import c18
         nb = 120 if tier == "thorough" else 12
